@@ -132,6 +132,29 @@ def run(chk):
                 xs = np.asarray(sol.solve_triangular(sol.solve_triangular(jnp.asarray(rhs)), transpose=True))
                 if float(np.max(np.abs(M @ xs - rhs))) > 1e-8 * float(np.max(np.abs(rhs))) * max(1.0, np.linalg.cond(M) * 1e-6):
                     oracle_bad.append(dict(case, what="solve with L then L^T does not solve with A", expected=rhs.tolist(), observed=(M @ xs).tolist()))
+    # ... and against an INDEPENDENT dense K + N (not the solver's own stored matrix), with diagonal and banded observation noise
+    from tinygp.noise import Banded
+    for kname, kern in (("Matern52", qs.Matern52(jnp.asarray(1.1), jnp.asarray(0.9))), ("Exp+Cosine", qs.Exp(jnp.asarray(0.8)) + qs.Cosine(jnp.asarray(2.3), jnp.asarray(0.5)))):
+        n = 8
+        X = jnp.asarray(np.sort(rng.uniform(0, 5, size=n)))
+        dgn = rng.uniform(0.5, 0.9, size=n)
+        off = 0.05 * rng.normal(size=(n, 2))
+        Nb = np.diag(dgn)
+        for j in range(2):
+            for r in range(n - j - 1):
+                Nb[r, r + j + 1] += off[r, j]
+                Nb[r + j + 1, r] += off[r, j]
+        for nname, nobj, Nd in (("diagonal", Diagonal(diag=jnp.asarray(dgn)), np.diag(dgn)), ("banded", Banded(jnp.asarray(dgn), jnp.asarray(off)), Nb)):
+            sol = GaussianProcess(kern, X, noise=nobj, solver=QuasisepSolver).solver
+            A = np.asarray(kern(X, X)) + Nd
+            Lf = np.asarray(sol.factor.to_dense())
+            case = dict(op=f"solver factor vs dense K + N [{nname} noise]", kernel=kname, n=n, X=np.asarray(X).tolist())
+            hist["solver-vs-dense:" + nname] = hist.get("solver-vs-dense:" + nname, 0) + 1
+            if not np.all(np.isfinite(Lf)) or float(np.max(np.abs(Lf @ Lf.T - A))) > 1e-10 * float(np.max(np.abs(A))):
+                oracle_bad.append(dict(case, what="L L^T != K + N", expected=A.tolist(), observed=(Lf @ Lf.T).tolist()))
+            want_norm = 0.5 * np.linalg.slogdet(A)[1] + 0.5 * n * np.log(2 * np.pi)
+            if abs(float(sol.normalization()) - want_norm) > 1e-9 * max(1.0, abs(want_norm)):
+                oracle_bad.append(dict(case, what="normalization != 0.5 log det(2 pi (K + N))", expected=float(want_norm), observed=float(sol.normalization())))
     model = coq_eval("c07", IMPORTS, exprs, shard=10)
     for (case, meta, dense), mv in zip(expect, model):
         mmeta, mdense = mv[:5], mv[5:]
